@@ -10,10 +10,12 @@ NOT decided: value encoding (CSV quoting, tuple export), dtype text round trip, 
 escaping/whitespace, equality of documents.
 """
 import ast
+import re
 
 from ..astutil import calls_in, call_name, where, truthiness_tests, kw
 from ..cfg import build_cfg
 from ..dataflow import private_closure
+from ..logic import known
 from ..symtext import Expander, effect_calls
 from ..model import AnalysisError, unparse, walk_no_nested
 from . import common_tables as ct
@@ -31,6 +33,8 @@ DECIDED = [
     "ORDER-1 XMLWriter.write_file renders before it opens the file",
     "LOOP-1 the reader does not carry parsed state from one sibling element to the next",
     "ORD-3 (XML half) parse_cardinality(str(c)) == c for every normal-form cardinality c",
+    "CSV-1 from_csv removes the list brackets only when to_csv's opening and closing bracket are both present",
+    "RET-1 (shared with C05) the dtype converters return normal forms: what is written as text is what the reader converts back",
 ]
 NOT_DECIDED = [
     "to_csv/from_csv and odml_tuple_export as inverse functions on arbitrary text",
@@ -214,6 +218,53 @@ def run(prog, rep):
 
     # ----------------------------------------------------------------- ORD-3
     cardinality_roundtrip(prog, rep, which=("xml",))
+
+    # ----------------------------------------------------------------- RET-1 (shared with C05)
+    from .c05 import ret1_rule
+    ret1_rule(prog, rep)
+
+    # ------------------------------------------------------------------ CSV-1
+    rep.rule("CSV-1", "to_csv wraps a multi valued list in an opening and a closing bracket; from_csv strips the first and the last "
+                      "character only on paths that know the text starts with that opening AND ends with that closing bracket "
+                      "(a single text value that merely starts with '[' must be returned unchanged)")
+    tc = xml.functions.get("to_csv")
+    fc = xml.functions.get("from_csv")
+    if tc is None or fc is None:
+        raise AnalysisError("xmlparser.to_csv / from_csv vanished")
+    rep.saw_function(tc)
+    rep.saw_function(fc)
+    brackets = []
+    for n in ast.walk(tc.node):
+        if isinstance(n, ast.Constant) and isinstance(n.value, str):
+            v = n.value
+            if len(v) == 1 and v in "[](){}<>":
+                brackets.append(v)
+            m = re.match(r"^([\[({<])%s([\])}>])$", v) or re.match(r"^([\[({<])\{\}([\])}>])$", v)
+            if m:
+                brackets += [m.group(1), m.group(2)]
+    rep.check(len(brackets) == 2, "CSV-1", "to_csv wraps lists in one bracket pair", str(brackets), "to_csv wraps with %s" % brackets, tc.where)
+    if len(brackets) == 2 and len([b for b in brackets if b in "[({<"]) == 1:
+        op = [b for b in brackets if b in "[({<"][0]
+        cl = [b for b in brackets if b not in "[({<"][0]
+        fg = build_cfg(fc)
+        fx = Expander(fc, fg, only_locations=True)
+        par = fc.params[0]
+        strips = [n for n in fg.nodes if n.kind == "stmt" and isinstance(n.ast, ast.Assign) and isinstance(n.ast.value, ast.Subscript)
+                  and isinstance(n.ast.value.slice, ast.Slice) and unparse(n.ast.value.slice) == "1:-1"]
+        rep.floor("CSV-1", len(strips), 1, "bracket stripping statements in from_csv")
+
+        def clc(leaf, br, fx=fx, par=par, op=op, cl=cl):
+            t = fx.text(leaf, br)
+            if t in ("%s[0] == %r" % (par, op), "%s.startswith(%r)" % (par, op)):
+                return "FIRST"
+            if t in ("%s[-1] == %r" % (par, cl), "%s.endswith(%r)" % (par, cl)):
+                return "LAST"
+            return None
+        for n in strips:
+            good = known(fg, n, clc, lambda a0: a0["FIRST"], ["FIRST"], with_node=True) and known(fg, n, clc, lambda a0: a0["LAST"], ["LAST"], with_node=True)
+            rep.check(good, "CSV-1", "from_csv strips brackets only from a bracketed list", "first == %r and last == %r" % (op, cl),
+                      "from_csv strips the first and last character on a path that does not know the text starts with %r and ends with %r" % (op, cl),
+                      where(fc, n.ast), witness="a single text value like '[sic] as noted' loses characters / is split at commas after save and load")
 
     # informational: strict/lenient entry points exist
     for name in ("from_string", "from_file"):
